@@ -35,10 +35,11 @@ Lemma disconnect_spec now c c' o :
   c' = fst (disconnect now c) /\ accepted o = [] /\ delivered o = [] /\ miss o = false /\
   disc_calls o = dcalls c /\ conn_calls o = 0%nat /\
   rbuf c' = [] /\ wbuf c' = [] /\ st c' <> Connected /\
-  reconnect c' = reconnect c /\ (reconnect c = false -> st c' = Disconnected).
+  reconnect c' = reconnect c /\ (reconnect c = false -> st c' = Disconnected) /\
+  (st c = Disconnected -> st c' = Disconnected).
 Proof.
   intros H. rewrite H. cbn [fst]. unfold disconnect, dcalls in *.
-  destruct (st c); destruct (reconnect c) eqn:Er; pair_eq H c' o; cbn;
+  destruct (st c) eqn:Es; destruct (reconnect c) eqn:Er; pair_eq H c' o; cbn;
     repeat split; try discriminate; try reflexivity; try assumption.
 Qed.
 
@@ -102,47 +103,33 @@ Proof.
   unfold try_send, check_timeout. intros H.
   destruct (now - last_read c >? timeout c) eqn:E.
   - destruct (disconnect now c) as [c1 o1] eqn:E1.
-    apply disconnect_spec in E1 as (_ & A1 & A2 & A3 & A4 & A5 & B1 & B2 & B3 & B4 & B5).
+    apply disconnect_spec in E1 as (_ & A1 & A2 & A3 & A4 & A5 & B1 & B2 & B3 & B4 & B5 & B6).
     assert (H' : (c1, o1) = (c', o)).
     { destruct (st c1) eqn:Es1; [exact H| |congruence].
       rewrite (send_loop_empty now script c1 B2) in H. rewrite out_app_no_out_r in H. exact H. }
     pair_eq H' c' o.
-    exists (wbuf c). rewrite A1. repeat split; try assumption; try lia.
+    exists (wbuf c). rewrite A1.
+    split; [reflexivity|]. split; [exact A2|]. split; [exact A3|]. split; [exact A5|].
+    split; [exact B4|]. split; [|split].
     + intros Hr Hn. exfalso. apply Hn. exact (B5 Hr).
-    + intros Hr Hn. exfalso. apply Hn. exact (B5 Hr).
-    + unfold disconnect in *. intros Hs.
-      destruct (reconnect c); [|exact (B5 eq_refl)].
-      (* already DISCONNECTED: no callback, so no reconnect *)
-      unfold dcalls in A4. rewrite Hs in A4.
-      clear - Hs E H. exfalso. revert H. unfold disconnect. rewrite Hs. cbn. congruence.
-    + intros Hs. unfold dcalls in A4. rewrite Hs in A4. exact A4.
+    + intros Hs. split; [exact (B6 Hs)|split; [reflexivity|]].
+      unfold dcalls in A4. rewrite Hs in A4. exact A4.
+    + intros _ Ht. lia.
   - destruct (st c) eqn:Es.
-    + pair_eq H c' o.
-      exists (wbuf c). cbn. repeat split; try congruence.
-    + destruct (send_loop now script c) as [c2 o2] eqn:E2.
-      apply send_loop_spec in E2 as (rest & A & B & C & C' & D).
-      pair_eq H c' o. rewrite out_app_no_out_l.
-      exists rest. repeat split; try assumption; try discriminate.
-      * destruct D as [[D1 _]|[_ [D1 _]]]; subst c2; [reflexivity|].
-        unfold disconnect. rewrite Es. destruct (reconnect c); reflexivity.
-      * destruct D as [[D1 _]|[_ [D1 _]]]; subst c2; [reflexivity|].
-        exfalso. revert H0. unfold disconnect. rewrite Es, H. cbn. congruence.
-      * destruct D as [[D1 _]|[_ [D1 _]]]; subst c2; [cbn; congruence|].
-        exfalso. revert H0. unfold disconnect. rewrite Es, H. cbn. congruence.
-      * destruct D as [[D1 _]|[D1 _]]; [exact D1|contradiction].
-      * destruct D as [[_ D2]|[D1 _]]; [exact D2|contradiction].
-    + destruct (send_loop now script c) as [c2 o2] eqn:E2.
-      apply send_loop_spec in E2 as (rest & A & B & C & C' & D).
-      pair_eq H c' o. rewrite out_app_no_out_l.
-      exists rest. repeat split; try assumption; try discriminate.
-      * destruct D as [[D1 _]|[_ [D1 _]]]; subst c2; [reflexivity|].
-        unfold disconnect. rewrite Es. destruct (reconnect c); reflexivity.
-      * destruct D as [[D1 _]|[_ [D1 _]]]; subst c2; [reflexivity|].
-        exfalso. revert H0. unfold disconnect. rewrite Es, H. cbn. congruence.
-      * destruct D as [[D1 _]|[_ [D1 _]]]; subst c2; [cbn; congruence|].
-        exfalso. revert H0. unfold disconnect. rewrite Es, H. cbn. congruence.
-      * destruct D as [[D1 _]|[D1 _]]; [exact D1|contradiction].
-      * destruct D as [[_ D2]|[D1 _]]; [exact D2|contradiction].
+    { pair_eq H c' o. exists (wbuf c). cbn. repeat split; congruence. }
+    all: destruct (send_loop now script c) as [c2 o2] eqn:E2;
+      apply send_loop_spec in E2 as (rest & A & B & C & C' & D);
+      pair_eq H c' o; rewrite out_app_no_out_l;
+      exists rest;
+      (split; [exact A|]); (split; [exact B|]); (split; [exact C|]); (split; [exact C'|]);
+      (split; [|split; [|split]]).
+    all: try (intros Hs; discriminate Hs).
+    all: try (intros _ Ht Hb; destruct D as [[D1 D2]|[D1 _]]; [split; assumption|contradiction]).
+    all: try (intros Hr Hn; destruct D as [[D1 _]|[_ [D1 _]]]; subst c2;
+              [split; [reflexivity|cbn [st set_wbuf]; exact Es]|];
+              exfalso; apply Hn; unfold disconnect; rewrite Es, Hr; reflexivity).
+    all: destruct D as [[D1 _]|[_ [D1 _]]]; subst c2; [reflexivity|];
+      unfold disconnect; rewrite Es; destruct (reconnect c) eqn:Er; cbn; congruence.
 Qed.
 
 Section C13W.
@@ -151,69 +138,92 @@ Section C13W.
   (* ---------------------------------------------------------------- *)
   (* the read side never touches the write buffer                      *)
 
+  (* [c'] comes from [c] by reading/parsing: same reconnect flag, and -- when
+     no callback reconnects -- unless it was disconnected, same write buffer
+     and state *)
+  Definition keepw (c c' : conn) : Prop :=
+    reconnect c' = reconnect c /\
+    (reconnect c = false -> st c' <> Disconnected -> wbuf c' = wbuf c /\ st c' = st c).
+
+  Lemma keepw_refl c : keepw c c.
+  Proof. split; [reflexivity|]. intros _ _. split; reflexivity. Qed.
+
+  Lemma keepw_trans a b c : keepw a b -> keepw b c -> keepw a c.
+  Proof.
+    intros [R1 K1] [R2 K2]. split; [congruence|].
+    intros Hr Hn. destruct (K2 ltac:(congruence) Hn) as [W2 S2].
+    destruct (K1 Hr ltac:(congruence)) as [W1 S1]. split; congruence.
+  Qed.
+
+  Lemma keepw_disc now c : keepw c (fst (disconnect now c)).
+  Proof.
+    destruct (disconnect now c) as [c' o] eqn:E. cbn [fst].
+    apply disconnect_spec in E as (_ & _ & _ & _ & _ & _ & _ & _ & _ & B4 & B5 & _).
+    split; [exact B4|]. intros Hr Hn. exfalso. apply Hn. exact (B5 Hr).
+  Qed.
+
   Lemma parse_one_cases now c c' r :
     parse_one dec now c = (c', r) ->
     match r with
     | PNone | PMiss => c' = c
     | PMsg _ => exists b, c' = set_rbuf c b
-    | PDisc => c' = dead now c
+    | PDisc => c' = fst (disconnect now c)
     end.
   Proof.
     unfold parse_one; cbv zeta. intros H.
     destruct (zlen (rbuf c) <? 4).
-    { apply (f_equal fst) in H as H1. apply (f_equal snd) in H as H2.
-      cbn [fst snd] in H1, H2. subst c' r. reflexivity. }
+    { pair_eq H c' r. reflexivity. }
     destruct (unpack_i (pyslice (rbuf c) 0 4) <? 0).
-    { apply (f_equal fst) in H as H1. apply (f_equal snd) in H as H2.
-      cbn [fst snd] in H1, H2. subst c' r. reflexivity. }
+    { pair_eq H c' r. reflexivity. }
     destruct (zlen (rbuf c) - 4 <? unpack_i (pyslice (rbuf c) 0 4)).
-    { apply (f_equal fst) in H as H1. apply (f_equal snd) in H as H2.
-      cbn [fst snd] in H1, H2. subst c' r. reflexivity. }
-    destruct (dec _);
-      apply (f_equal fst) in H as H1; apply (f_equal snd) in H as H2;
-      cbn [fst snd] in H1, H2; subst c' r; try reflexivity.
+    { pair_eq H c' r. reflexivity. }
+    destruct (dec _); pair_eq H c' r; try reflexivity.
     eexists; reflexivity.
   Qed.
 
   Lemma parse_loop_wbuf now fuel : forall c c' o,
     parse_loop dec now fuel c = (c', o) ->
-    accepted o = [] /\ (st c' = Connected -> wbuf c' = wbuf c).
+    accepted o = [] /\ conn_calls o = 0%nat /\ keepw c c'.
   Proof.
     induction fuel as [|f IH]; intros c c' o H; cbn [parse_loop] in H.
-    - apply (f_equal fst) in H as H1. apply (f_equal snd) in H as H2.
-      cbn [fst snd] in H1, H2. subst c' o. split; reflexivity.
+    - pair_eq H c' o. split; [reflexivity|split; [reflexivity|apply keepw_refl]].
     - destruct (parse_one dec now c) as [c1 r] eqn:E1. apply parse_one_cases in E1.
       destruct r as [|id| |].
-      + apply (f_equal fst) in H as H1. apply (f_equal snd) in H as H2.
-        cbn [fst snd] in H1, H2. subst c' o c1. split; reflexivity.
+      + pair_eq H c' o. subst c1. split; [reflexivity|split; [reflexivity|apply keepw_refl]].
       + destruct E1 as [b ->].
         destruct (parse_loop dec now f (set_rbuf c b)) as [c2 o2] eqn:E2.
-        apply IH in E2 as [A B].
-        apply (f_equal fst) in H as H1. apply (f_equal snd) in H as H2.
-        cbn [fst snd] in H1, H2. subst c' o. cbn [out_app accepted].
-        rewrite A. split; [reflexivity|exact B].
-      + apply (f_equal fst) in H as H1. apply (f_equal snd) in H as H2.
-        cbn [fst snd] in H1, H2. subst c' o c1. split; [reflexivity|discriminate].
-      + apply (f_equal fst) in H as H1. apply (f_equal snd) in H as H2.
-        cbn [fst snd] in H1, H2. subst c' o c1. split; reflexivity.
+        apply IH in E2 as (A & A' & K).
+        pair_eq H c' o. cbn [out_app accepted conn_calls].
+        rewrite A, A'. split; [reflexivity|split; [reflexivity|]].
+        refine (keepw_trans c (set_rbuf c b) c2 _ K).
+        split; [reflexivity|]. intros _ _. split; reflexivity.
+      + pair_eq H c' o. subst c1.
+        destruct (disconnect now c) as [cd od] eqn:Ed.
+        pose proof (keepw_disc now c) as K. rewrite Ed in K.
+        apply disconnect_spec in Ed as (_ & A1 & _ & _ & _ & A5 & _).
+        cbn [fst snd] in *. split; [exact A1|split; [exact A5|exact K]].
+      + pair_eq H c' o. subst c1. split; [reflexivity|split; [reflexivity|apply keepw_refl]].
   Qed.
 
   Lemma read_loop_wbuf now rs : forall c c' o,
     read_loop now rs c = (c', o) ->
-    accepted o = [] /\ (st c' = Connected -> wbuf c' = wbuf c).
+    accepted o = [] /\ conn_calls o = 0%nat /\ keepw c c'.
   Proof.
+    assert (Hd : forall c c' o, disconnect now c = (c', o) ->
+                 accepted o = [] /\ conn_calls o = 0%nat /\ keepw c c').
+    { intros c c' o E. pose proof (keepw_disc now c) as K. rewrite E in K.
+      apply disconnect_spec in E as (_ & A1 & _ & _ & _ & A5 & _).
+      split; [exact A1|split; [exact A5|exact K]]. }
     induction rs as [|r rs IH]; intros c c' o H; cbn [read_loop] in H.
-    - apply (f_equal fst) in H as H1. apply (f_equal snd) in H as H2.
-      cbn [fst snd] in H1, H2. subst c' o. split; reflexivity.
+    - pair_eq H c' o. split; [reflexivity|split; [reflexivity|apply keepw_refl]].
     - destruct r as [b soerr| |].
-      + destruct soerr.
-        * apply disconnect_spec in H as (-> & H2 & _). split; [exact H2|discriminate].
-        * destruct b as [|x b].
-          -- apply disconnect_spec in H as (-> & H2 & _). split; [exact H2|discriminate].
-          -- apply IH in H. exact H.
-      + apply (f_equal fst) in H as H1. apply (f_equal snd) in H as H2.
-        cbn [fst snd] in H1, H2. subst c' o. split; reflexivity.
-      + apply disconnect_spec in H as (-> & H2 & _). split; [exact H2|discriminate].
+      + destruct soerr; [exact (Hd _ _ _ H)|].
+        destruct b as [|x b]; [exact (Hd _ _ _ H)|].
+        apply IH in H as (A & A' & K). split; [exact A|split; [exact A'|]].
+        refine (keepw_trans c _ c' _ K).
+        split; [reflexivity|]. intros _ _. split; reflexivity.
+      + pair_eq H c' o. split; [reflexivity|split; [reflexivity|apply keepw_refl]].
+      + exact (Hd _ _ _ H).
   Qed.
 
   (* ---------------------------------------------------------------- *)
@@ -241,110 +251,149 @@ Section C13W.
   Qed.
 
   (* ---------------------------------------------------------------- *)
-  (* one event, any kind, any scripts                                  *)
+  (* one event, any kind, any scripts; one connection lifetime          *)
+  (* (no reconnecting callback, no connect())                          *)
 
-  Ltac pair_eq H c o :=
-    let H1 := fresh in let H2 := fresh in
-    apply (f_equal fst) in H as H1; apply (f_equal snd) in H as H2;
-    cbn [fst snd] in H1, H2; subst c o.
+  Lemma poll_connected_writer c now rd wr ss rs c2 o2 :
+    reconnect c = false ->
+    poll_connected dec now rd wr ss rs c = (c2, o2) ->
+    exists rest,
+      accepted o2 ++ rest = wbuf c /\
+      (st c2 <> Disconnected -> wbuf c2 = rest) /\ reconnect c2 = reconnect c.
+  Proof.
+    intros Hr H. unfold poll_connected in H.
+    destruct (if wr then try_send now ss c else (c, no_out)) as [c1 o1] eqn:E1.
+    assert (W : exists rest, accepted o1 ++ rest = wbuf c /\ reconnect c1 = reconnect c /\
+                             (st c1 <> Disconnected -> wbuf c1 = rest)).
+    { destruct wr.
+      - apply try_send_spec in E1 as (rest & A & _ & _ & _ & B & C & _).
+        exists rest. repeat split; try assumption. intros Hn. exact (proj1 (C Hr Hn)).
+      - pair_eq E1 c1 o1. exists (wbuf c). repeat split. }
+    destruct W as (rest & A & R1 & B). exists rest.
+    destruct (st c1) eqn:Es1.
+    { pair_eq H c2 o2. repeat split; try assumption. congruence. }
+    { pair_eq H c2 o2. repeat split; try assumption. intros _. apply B. congruence. }
+    destruct rd.
+    2:{ pair_eq H c2 o2. repeat split; try assumption. intros _. apply B. congruence. }
+    destruct (read_loop now rs c1) as [c3 o3] eqn:E3.
+    apply read_loop_wbuf in E3 as (A3 & _ & K3).
+    cbn [st set_last_read] in H.
+    assert (K3' : keepw c1 (set_last_read c3 now)) by exact K3.
+    destruct (st c3) eqn:Es3.
+    { pair_eq H c2 o2. cbn [out_app accepted st set_last_read reconnect].
+      rewrite A3, app_nil_r. repeat split; [exact A|congruence|].
+      destruct K3 as [K _]. congruence. }
+    all: destruct (parse_all dec now (set_last_read c3 now)) as [c4 o4] eqn:E4;
+      unfold parse_all in E4; apply parse_loop_wbuf in E4 as (A4 & _ & K4);
+      pose proof (keepw_trans _ _ _ K3' K4) as [KR KW];
+      pair_eq H c2 o2; cbn [out_app accepted]; rewrite A3, A4, !app_nil_r;
+      (repeat split; [exact A| |congruence]);
+      intros Hn; destruct (KW ltac:(congruence) Hn) as [W4 _]; rewrite W4; apply B; congruence.
+  Qed.
 
   Lemma step_poll_writer c now rd wr er soerr ss rs c1 o :
+    reconnect c = false ->
     step dec c (EPoll now rd wr er soerr ss rs) = (c1, o) ->
     exists rest,
       accepted o ++ rest = wbuf c /\
-      (st c1 = Connected -> wbuf c1 = rest) /\
-      (st c = Disconnected -> st c1 = Disconnected).
+      (st c1 <> Disconnected -> wbuf c1 = rest) /\
+      (st c = Disconnected -> st c1 = Disconnected) /\
+      reconnect c1 = reconnect c.
   Proof.
-    intros H. unfold step in H. destruct (st c) eqn:Es.
+    intros Hr H. unfold step in H.
+    (* every branch that ends in disconnect(): nothing accepted, DISCONNECTED *)
+    assert (Hd : forall cd od, disconnect now c = (cd, od) ->
+                 accepted od = [] /\ st cd = Disconnected /\ reconnect cd = reconnect c).
+    { intros cd od E.
+      apply disconnect_spec in E as (_ & A1 & _ & _ & _ & _ & _ & _ & _ & B4 & B5 & _).
+      repeat split; [exact A1|exact (B5 Hr)|exact B4]. }
+    destruct (st c) eqn:Es.
     { pair_eq H c1 o. exists (wbuf c). cbn. repeat split; congruence. }
-    destruct er.
-    { apply disconnect_spec in H as (-> & -> & _).
-      exists (wbuf c). repeat split; discriminate. }
-    unfold check_timeout in H.
-    destruct (now - last_read c >? timeout c).
-    { cbn [disconnect st] in H. pair_eq H c1 o.
-      exists (wbuf c). cbn. repeat split; discriminate. }
-    rewrite Es in H.
-    destruct ((rd || wr) && soerr).
-    { destruct (disconnect now c) as [c2 o2] eqn:E2.
-      apply disconnect_spec in E2 as (-> & A2 & _). pair_eq H c1 o.
-      exists (wbuf c). cbn [out_app accepted no_out]. rewrite A2.
-      repeat split; discriminate. }
-    destruct (if wr then try_send now ss c else (c, no_out)) as [c2 o2] eqn:E2.
-    assert (W : exists rest, accepted o2 ++ rest = wbuf c /\ (st c2 = Connected -> wbuf c2 = rest)).
-    { destruct wr.
-      - apply try_send_spec in E2 as (rest & A & _ & _ & B & _). exists rest. split; assumption.
-      - pair_eq E2 c2 o2. exists (wbuf c). split; reflexivity. }
-    destruct W as (rest & A & B). exists rest.
-    destruct (st c2) eqn:Es2.
-    { pair_eq H c1 o. rewrite out_app_no_out_l. repeat split; [exact A|congruence|discriminate]. }
-    destruct rd.
-    2:{ pair_eq H c1 o. rewrite out_app_no_out_l. repeat split; [exact A|intros _; exact (B eq_refl)|discriminate]. }
-    destruct (read_loop now rs c2) as [c3 o3] eqn:E3. apply read_loop_wbuf in E3 as [A3 B3].
-    cbn [st set_last_read] in H.
-    destruct (st c3) eqn:Es3.
-    { pair_eq H c1 o. rewrite out_app_no_out_l. cbn [out_app accepted st set_last_read].
-      rewrite A3, app_nil_r. repeat split; [exact A|congruence|discriminate]. }
-    destruct (parse_all dec now (set_last_read c3 now)) as [c4 o4] eqn:E4.
-    unfold parse_all in E4. apply parse_loop_wbuf in E4 as [A4 B4].
-    cbn [wbuf set_last_read] in B4. pair_eq H c1 o.
-    rewrite out_app_no_out_l. cbn [out_app accepted]. rewrite A3, A4, !app_nil_r.
-    repeat split; [exact A| |discriminate].
-    intros Hc. rewrite (B4 Hc), (B3 eq_refl). apply B. reflexivity.
+    all: destruct er;
+      [destruct (Hd _ _ H) as (A1 & S1 & R1); exists (wbuf c); rewrite A1;
+       repeat split; [congruence|discriminate|exact R1]|].
+    all: unfold check_timeout in H; cbv zeta in H;
+      destruct (now - last_read c >? timeout c);
+      [destruct (disconnect now c) as [cd od] eqn:Ed;
+       destruct (Hd _ _ eq_refl) as (A1 & S1 & R1); rewrite S1 in H; pair_eq H c1 o;
+       exists (wbuf c); rewrite A1; repeat split; [congruence|discriminate|exact R1]|].
+    all: rewrite Es in H; rewrite andb_true_r in H;
+      destruct ((rd || wr) && soerr);
+      [destruct (disconnect now c) as [cd od] eqn:Ed;
+       destruct (Hd _ _ eq_refl) as (A1 & S1 & R1); pair_eq H c1 o;
+       exists (wbuf c); rewrite out_app_no_out_l, A1;
+       repeat split; [congruence|discriminate|exact R1]|].
+    - (* CONNECTING *)
+      exists (wbuf c). destruct (rd || wr); pair_eq H c1 o; cbn; repeat split; discriminate.
+    - (* CONNECTED *)
+      destruct (poll_connected dec now rd wr ss rs c) as [c2 o2] eqn:E2.
+      apply (poll_connected_writer c now rd wr ss rs c2 o2 Hr) in E2 as (rest & A & B & R).
+      pair_eq H c1 o. rewrite out_app_no_out_l.
+      exists rest. repeat split; [exact A|exact B|discriminate|exact R].
   Qed.
 
   Lemma step_writer_any c e c1 o :
+    reconnect c = false -> no_connect e ->
     step dec c e = (c1, o) ->
     exists rest,
       accepted o ++ rest = wbuf c ++ sent_of [e] /\
-      (st c1 = Connected -> wbuf c1 = rest) /\
-      (st c = Disconnected -> st c1 = Disconnected).
+      (st c1 <> Disconnected -> wbuf c1 = rest) /\
+      (st c = Disconnected -> st c1 = Disconnected) /\
+      reconnect c1 = reconnect c.
   Proof.
-    intros H. destruct e as [now p script|now rd wr er soerr ss rs|].
+    intros Hr Hn H. destruct e as [now p script|now rd wr er soerr ss rs|now|now]; [| | |destruct Hn].
     - (* ESend *)
-      unfold step in H. apply try_send_spec in H as (rest & A & _ & _ & B & C & _).
+      unfold step in H. apply try_send_spec in H as (rest & A & _ & _ & _ & R & B & C & _).
       exists rest. cbn [wbuf set_wbuf] in A.
       unfold sent_of, sent_payloads. cbn [flat_map map concat app]. rewrite app_nil_r.
-      repeat split; [exact A|exact B|]. intros Hs. apply C. exact Hs.
+      repeat split; [exact A| |intros Hs; apply C; exact Hs|exact R].
+      intros Hn'. exact (proj1 (B Hr Hn')).
     - (* EPoll *)
-      apply step_poll_writer in H as (rest & A & B & C). exists rest.
+      apply (step_poll_writer c now rd wr er soerr ss rs c1 o Hr) in H as (rest & A & B & C & R).
+      exists rest.
       unfold sent_of, sent_payloads. cbn [flat_map map concat app]. rewrite app_nil_r.
       repeat split; assumption.
     - (* EDisconnect *)
-      unfold step in H. apply disconnect_spec in H as (-> & A & _).
+      unfold step in H.
+      apply disconnect_spec in H as (_ & A & _ & _ & _ & _ & _ & _ & _ & B4 & B5 & B6).
       exists (wbuf c). rewrite A. unfold sent_of, sent_payloads. cbn.
-      rewrite app_nil_r. repeat split; try discriminate.
+      rewrite app_nil_r. repeat split; [|exact B6|exact B4].
+      intros Hn'. exfalso. apply Hn'. exact (B5 Hr).
   Qed.
 
   (* ---------------------------------------------------------------- *)
-  (* C13_writer, all schedules: whatever happens to the connection (sends,
-     polls with any flags and any socket scripts, errors, timeouts, explicit
-     disconnects), the bytes the socket accepted so far are a prefix of the
-     frames handed to send(), in order; while the connection is up the
-     remainder is exactly the write buffer. *)
+  (* C13_writer, all schedules within one connection lifetime (no
+     reconnecting callback, no connect()): whatever happens to the connection
+     (sends, polls with any flags and any socket scripts, errors, timeouts,
+     explicit disconnects), the bytes the socket accepted so far are a prefix
+     of the frames handed to send(), in order; while the connection is not
+     DISCONNECTED the remainder is exactly the write buffer. *)
 
   Theorem writer_any es : forall c c' os,
+    reconnect c = false -> Forall no_connect es ->
     run dec c es = (c', os) ->
     exists rest,
       acc_of os ++ rest = wbuf c ++ sent_of es /\
-      (st c' = Connected -> wbuf c' = rest).
+      (st c' <> Disconnected -> wbuf c' = rest).
   Proof.
-    induction es as [|e es IH]; intros c c' os H; cbn [run] in H.
+    induction es as [|e es IH]; intros c c' os Hr Hn H; cbn [run] in H.
     - pair_eq H c' os. exists (wbuf c). cbn. rewrite app_nil_r. split; reflexivity.
-    - destruct (step dec c e) as [c1 o] eqn:E1.
+    - inversion Hn as [|e' es' Hn1 Hn2]; subst e' es'.
+      destruct (step dec c e) as [c1 o] eqn:E1.
       destruct (run dec c1 es) as [c2 os2] eqn:E2. pair_eq H c' os.
-      apply step_writer_any in E1 as (rest1 & A1 & B1 & _).
+      apply (step_writer_any c e c1 o Hr Hn1) in E1 as (rest1 & A1 & B1 & _ & R1).
       change (acc_of (o :: os2)) with (accepted o ++ acc_of os2).
       rewrite (sent_of_cons e es).
       destruct (st c1) eqn:Es1.
-      + pose proof (run_disconnected dec es c1 Es1) as [R1 R2].
-        rewrite E2 in R1, R2. cbn [fst snd] in R1, R2.
-        exists (rest1 ++ sent_of es).
-        rewrite (acc_of_quiet _ R2), app_nil_r, !app_assoc, A1.
-        split; [reflexivity|congruence].
-      + apply IH in E2 as (rest & A & B). rewrite (B1 eq_refl) in A.
-        exists rest. rewrite <- app_assoc, A, !app_assoc, A1.
-        split; [reflexivity|exact B].
+      1:{ pose proof (run_disconnected dec es c1 Es1 Hn2) as [Q1 Q2].
+          rewrite E2 in Q1, Q2. cbn [fst snd] in Q1, Q2.
+          exists (rest1 ++ sent_of es).
+          rewrite (acc_of_quiet _ Q2), app_nil_r, !app_assoc, A1.
+          split; [reflexivity|congruence]. }
+      all: apply (IH c1 c2 os2 ltac:(congruence) Hn2) in E2 as (rest & A & B);
+        rewrite (B1 ltac:(discriminate)) in A;
+        exists rest; rewrite <- app_assoc, A, !app_assoc, A1;
+        (split; [reflexivity|exact B]).
   Qed.
 
   (* ---------------------------------------------------------------- *)
@@ -357,11 +406,12 @@ Section C13W.
     | ESend now _ s => now - last <= tmo /\ Forall benign s
     | EPoll now rd wr er soerr s _ =>
       rd = false /\ er = false /\ soerr = false /\ now - last <= tmo /\ Forall benign s
-    | EDisconnect => False
+    | EDisconnect _ => False
+    | EConnect _ => False
     end.
 
   Definition silent (o : outs) : Prop :=
-    delivered o = [] /\ disc_calls o = 0%nat /\ miss o = false.
+    delivered o = [] /\ disc_calls o = 0%nat /\ conn_calls o = 0%nat /\ miss o = false.
 
   Lemma step_writer_benign c e c1 o :
     st c = Connected -> benign_event (last_read c) (timeout c) e ->
@@ -369,20 +419,23 @@ Section C13W.
     exists rest,
       c1 = set_wbuf c rest /\ accepted o ++ rest = wbuf c ++ sent_of [e] /\ silent o.
   Proof.
-    intros Hst Hb H. destruct e as [now p script|now rd wr er soerr ss rs|]; [| |destruct Hb].
+    intros Hst Hb H.
+    destruct e as [now p script|now rd wr er soerr ss rs|now|now]; [| |destruct Hb|destruct Hb].
     - destruct Hb as [Ht Hs]. unfold step in H.
-      apply try_send_spec in H as (rest & A & B & C & _ & _ & D).
-      destruct (D Hst Ht Hs) as [D1 D2]. exists rest.
+      apply try_send_spec in H as (rest & A & B & C & C' & _ & _ & _ & D).
+      assert (Hl : st (set_wbuf c (wbuf c ++ frame p)) <> Disconnected)
+        by (cbn [st set_wbuf]; congruence).
+      destruct (D Hl Ht Hs) as [D1 D2]. exists rest.
       unfold sent_of, sent_payloads. cbn [flat_map map concat app]. rewrite app_nil_r.
       repeat split; assumption.
     - destruct Hb as (-> & -> & -> & Ht & Hs). unfold step in H. rewrite Hst in H.
-      rewrite (check_timeout_ok now c Ht) in H. cbv beta iota in H. rewrite Hst in H.
-      rewrite andb_false_r in H.
+      rewrite (check_timeout_ok now c Ht) in H. cbv beta iota zeta in H. rewrite Hst in H.
+      rewrite andb_false_r in H. cbn [andb] in H. unfold poll_connected in H.
       unfold sent_of, sent_payloads. cbn [flat_map map concat app]. rewrite app_nil_r.
       destruct wr.
       + destruct (try_send now ss c) as [c2 o2] eqn:E2.
-        apply try_send_spec in E2 as (rest & A & B & C & _ & _ & D).
-        destruct (D Hst Ht Hs) as [D1 D2]. subst c2. cbn [st set_wbuf] in H.
+        apply try_send_spec in E2 as (rest & A & B & C & C' & _ & _ & _ & D).
+        destruct (D ltac:(congruence) Ht Hs) as [D1 D2]. subst c2. cbn [st set_wbuf] in H.
         rewrite Hst in H. pair_eq H c1 o. rewrite out_app_no_out_l.
         exists rest. repeat split; assumption.
       + cbv beta iota in H. rewrite Hst in H. pair_eq H c1 o.
@@ -474,14 +527,14 @@ Section C13W.
       rewrite skipn_add.
       cbn [total fold_right]. fold (total ks).
       destruct (send_loop now tl (set_wbuf c (skipn (amt k + total ks) (x :: w)))) as [c' o].
-      unfold out_app. cbn [accepted delivered disc_calls miss].
+      unfold out_app. cbn [accepted delivered disc_calls conn_calls miss].
       rewrite (firstn_add (amt k) (total ks) (x :: w)), <- app_assoc. reflexivity.
   Qed.
 
   Definition disc_out_acc (acc : bytes) : outs :=
     {| accepted := acc; delivered := []; disc_calls := 1; conn_calls := 0; miss := false |}.
 
-  Lemma send_loop_fails f post c :
+  Lemma send_loop_fails now f post c :
     fails f -> wbuf c <> [] -> send_loop now (f :: post) c = disconnect now c.
   Proof.
     intros Hf Hne. cbn [send_loop].
@@ -497,28 +550,33 @@ Section C13W.
   Proof.
     intros Hst Ht Hf Hlen. unfold try_send.
     rewrite (check_timeout_ok now c Ht), Hst.
-    rewrite (send_loop_accepts ks c (f :: post) Hlen).
+    rewrite (send_loop_accepts now ks c (f :: post) Hlen).
     assert (Hne : wbuf (set_wbuf c (skipn (total ks) (wbuf c))) <> []).
     { cbn [wbuf set_wbuf]. intros Es. apply (f_equal (@length N)) in Es.
       rewrite skipn_length in Es. cbn in Es. lia. }
-    rewrite (send_loop_fails f post _ Hf Hne).
-    unfold disconnect. cbn [st set_wbuf last_read timeout]. rewrite Hst.
-    rewrite out_app_no_out_l. unfold out_app, disc_out_acc, dead.
-    cbn [accepted delivered disc_calls miss]. rewrite app_nil_r. reflexivity.
+    rewrite (send_loop_fails now f post _ Hf Hne).
+    rewrite disconnect_live by (cbn [st set_wbuf]; congruence).
+    change (dead now (set_wbuf c (skipn (total ks) (wbuf c)))) with (dead now c).
+    rewrite out_app_no_out_l. unfold out_app, disc_out_acc, disc_out.
+    cbn [accepted delivered disc_calls conn_calls miss]. rewrite app_nil_r. reflexivity.
   Qed.
 
   Lemma try_send_timeout now script c :
     st c = Connected -> now - last_read c > timeout c ->
-    try_send now script c = (dead now c, disc_out_acc []).
+    try_send now script c = (dead now c, disc_out).
   Proof.
     intros Hst Ht. unfold try_send, check_timeout.
-    destruct (now - last_read c >? timeout c) eqn:E; [|lia].
-    unfold disconnect. cbn [st]. rewrite Hst. reflexivity.
+    rewrite (timed_out_true now c Ht).
+    rewrite disconnect_live by congruence.
+    destruct (dead_buffers now c) as [_ B2].
+    destruct (st (dead now c)); [reflexivity| |];
+      rewrite (send_loop_empty now script _ B2); reflexivity.
   Qed.
 
   (* socket.send fails (returns < 0 or raises a non-EAGAIN error) after having
-     accepted some bytes: what was accepted is a prefix of the buffer, then the
-     connection is Disconnected, both buffers empty, onDisconnected once *)
+     accepted some bytes: what was accepted is a prefix of the buffer, then
+     onDisconnected once and both buffers empty: the connection is
+     DISCONNECTED, or -- reconnecting callback -- a fresh CONNECTING one *)
   Theorem writer_failure_send c now p ks f post :
     st c = Connected -> now - last_read c <= timeout c -> fails f ->
     (total ks < length (wbuf c ++ frame p))%nat ->
@@ -537,27 +595,48 @@ Section C13W.
     = (dead now c, disc_out_acc (firstn (total ks) (wbuf c))).
   Proof.
     intros Hst Ht Hf Hlen ->. unfold step. rewrite Hst.
-    rewrite (check_timeout_ok now c Ht). cbv beta iota. rewrite Hst, andb_false_r.
+    rewrite (check_timeout_ok now c Ht). cbv beta iota zeta. rewrite Hst.
+    rewrite andb_false_r. cbn [andb]. unfold poll_connected.
     rewrite (try_send_failure now ks f post c Hst Ht Hf Hlen).
-    cbv beta iota. cbn [st dead]. rewrite !out_app_no_out_l. reflexivity.
+    cbv beta iota. unfold dead. destruct (reconnect c); cbn [st connect cleared];
+      rewrite out_app_no_out_l; reflexivity.
   Qed.
 
   Theorem writer_timeout_send c now p script :
     st c = Connected -> now - last_read c > timeout c ->
-    step dec c (ESend now p script) = (dead now c, disc_out_acc []).
+    step dec c (ESend now p script) = (dead now c, disc_out).
   Proof.
     intros Hst Ht. unfold step.
     rewrite (try_send_timeout now script (set_wbuf c (wbuf c ++ frame p)) Hst Ht).
     reflexivity.
   Qed.
 
+  (* a poll after the timeout, no reconnecting callback *)
   Theorem writer_timeout_poll c now rd wr soerr ss rs :
-    st c = Connected -> now - last_read c > timeout c ->
-    step dec c (EPoll now rd wr false soerr ss rs) = (dead now c, disc_out_acc []).
+    st c = Connected -> reconnect c = false -> now - last_read c > timeout c ->
+    step dec c (EPoll now rd wr false soerr ss rs) = (cleared c, disc_out).
   Proof.
-    intros Hst Ht. unfold step, check_timeout. rewrite Hst.
-    destruct (now - last_read c >? timeout c) eqn:E; [|lia].
-    unfold disconnect. cbn [st]. rewrite Hst. reflexivity.
+    intros Hst Hr Ht. unfold step, check_timeout. rewrite Hst.
+    rewrite (timed_out_true now c Ht). cbv zeta.
+    rewrite disconnect_live by congruence. unfold dead. rewrite Hr. reflexivity.
+  Qed.
+
+  (* ... and with one: the handler goes on after the re-entrant connect() and,
+     when the event has the READ or WRITE flag, marks the fresh connection
+     CONNECTED at once (onConnected is called) *)
+  Theorem timeout_poll_reconnect c now rd wr soerr ss rs :
+    st c = Connected -> reconnect c = true -> now - last_read c > timeout c ->
+    step dec c (EPoll now rd wr false soerr ss rs) =
+      if rd || wr
+      then ({| st := Connected; rbuf := []; wbuf := []; last_read := now;
+               timeout := timeout c; reconnect := true |}, out_app disc_out conn_out)
+      else (connect now c, disc_out).
+  Proof.
+    intros Hst Hr Ht. unfold step, check_timeout. rewrite Hst.
+    rewrite (timed_out_true now c Ht). cbv zeta.
+    rewrite disconnect_live by congruence. unfold dead. rewrite Hr.
+    cbn [st connect]. rewrite andb_false_r.
+    destruct (rd || wr); cbn [rbuf wbuf timeout reconnect connect]; rewrite ?Hr; reflexivity.
   Qed.
 
 End C13W.
@@ -580,8 +659,9 @@ Section C13RT.
      feed them to a reader: it delivers [firstn k ms], where k whole frames and
      a strict prefix of frame k have been accepted; and if the sender is still
      up with an empty write buffer, it delivers exactly ms and holds nothing. *)
-  Theorem roundtrip es ms cw cw' os cs cr :
-    wbuf cw = [] -> sent_payloads es = map payload ms ->
+  Theorem roundtrip now es ms cw cw' os cs cr :
+    wbuf cw = [] -> reconnect cw = false -> Forall no_connect es ->
+    sent_payloads es = map payload ms ->
     Forall (good dec payload) ms ->
     run decw cw es = (cw', os) ->
     concat cs = acc_of os -> rbuf cr = [] ->
@@ -590,17 +670,17 @@ Section C13RT.
        acc_of os = stream payload (firstn k ms) ++ tail /\
        next_frame_prefix payload tail (skipn k ms) /\
        feed_all dec now cr cs = (set_rbuf cr tail, mk_out (firstn k ms))) /\
-    (st cw' = Connected -> wbuf cw' = [] -> feed_all dec now cr cs = (cr, mk_out ms)).
+    (st cw' <> Disconnected -> wbuf cw' = [] -> feed_all dec now cr cs = (cr, mk_out ms)).
   Proof.
-    intros Hw Hp Hg Hrun Hcs Hr.
-    destruct (writer_any decw es cw cw' os Hrun) as (rest & A & B).
+    intros Hw Hrc Hnc Hp Hg Hrun Hcs Hr.
+    destruct (writer_any decw es cw cw' os Hrc Hnc Hrun) as (rest & A & B).
     rewrite Hw, (sent_of_stream es ms Hp) in A. cbn [app] in A.
     split.
     - rewrite <- Hcs in A |- *.
-      exact (reader_prefix dec payload ms cs rest cr Hg Hr A).
+      exact (reader_prefix dec payload now ms cs rest cr Hg Hr A).
     - intros Hst Hw'. rewrite (B Hst) in Hw'. subst rest. rewrite app_nil_r in A.
       rewrite <- Hcs in A.
-      exact (reader_complete dec payload ms cs cr Hg Hr A).
+      exact (reader_complete dec payload now ms cs cr Hg Hr A).
   Qed.
 
 End C13RT.
@@ -616,7 +696,9 @@ Definition ex_payload (m : N) : bytes :=
 Definition ex_dec : bytes -> dres :=
   table_dec [([10; 11; 12]%N, Some 1%N); ([20; 21]%N, Some 2%N); ([66]%N, None)].
 
-Definition ex_c0 : conn := init_conn 0 10.
+Definition ex_c0 : conn := init_conn 0 10 false.
+(* the same connection with a reconnecting onDisconnected callback *)
+Definition ex_c1 : conn := init_conn 0 10 true.
 
 Ltac ex_arith := vm_compute; first [lia | discriminate | reflexivity].
 Ltac ex_good := repeat (apply Forall_cons; [split; reflexivity|]); apply Forall_nil.
@@ -629,11 +711,11 @@ Proof. vm_compute. reflexivity. Qed.
 Definition ex_chunks : list bytes := [[3; 0]; [0; 0; 10; 11; 12; 2; 0; 0]; [0; 20; 21]]%N.
 
 Example ex_reader_complete :
-  feed_all ex_dec ex_c0 ex_chunks = (ex_c0, mk_out [1; 2]%N).
+  feed_all ex_dec 0 ex_c0 ex_chunks = (ex_c0, mk_out [1; 2]%N).
 Proof. apply (reader_complete ex_dec ex_payload); [ex_good|reflexivity|reflexivity]. Qed.
 
 Example ex_reader_complete_computed :
-  feed_all ex_dec ex_c0 ex_chunks = (ex_c0, mk_out [1; 2]%N).
+  feed_all ex_dec 0 ex_c0 ex_chunks = (ex_c0, mk_out [1; 2]%N).
 Proof. vm_compute. reflexivity. Qed.
 
 (* a prefix of the stream that ends inside the second length field *)
@@ -642,24 +724,24 @@ Example ex_reader_prefix :
     (k <= 2)%nat /\
     concat [[3; 0]; [0; 0; 10; 11; 12; 2; 0]]%N = stream ex_payload (firstn k [1; 2]%N) ++ tail /\
     next_frame_prefix ex_payload tail (skipn k [1; 2]%N) /\
-    feed_all ex_dec ex_c0 [[3; 0]; [0; 0; 10; 11; 12; 2; 0]]%N
+    feed_all ex_dec 0 ex_c0 [[3; 0]; [0; 0; 10; 11; 12; 2; 0]]%N
     = (set_rbuf ex_c0 tail, mk_out (firstn k [1; 2]%N)).
 Proof.
-  apply (reader_prefix ex_dec ex_payload [1; 2]%N _ [0; 0; 20; 21]%N);
+  apply (reader_prefix ex_dec ex_payload 0 [1; 2]%N _ [0; 0; 20; 21]%N);
     [ex_good|reflexivity|reflexivity].
 Qed.
 
 Example ex_reader_prefix_any :
-  feed_all ex_dec ex_c0 [[3; 0]; [0; 0; 10; 11; 12; 2; 0]]%N
+  feed_all ex_dec 0 ex_c0 [[3; 0]; [0; 0; 10; 11; 12; 2; 0]]%N
   = (set_rbuf ex_c0 [2; 0]%N, mk_out [1]%N).
 Proof.
-  apply (reader_prefix_any ex_dec ex_payload [1; 2]%N _ 1%nat [2; 0]%N);
+  apply (reader_prefix_any ex_dec ex_payload 0 [1; 2]%N _ 1%nat [2; 0]%N);
     [ex_good|reflexivity|cbn; lia|reflexivity|].
   exists [0; 0; 20; 21]%N. split; [discriminate|reflexivity].
 Qed.
 
 Definition ex_polls : list (Z * bytes) :=
-  [(1, [3; 0]%N); (5, [0; 0; 10; 11; 12; 2; 0; 0]%N); (14, [0; 20; 21]%N)].
+  [(5, [3; 0]%N); (9, [0; 0; 10; 11; 12; 2; 0; 0]%N); (14, [0; 20; 21]%N)].
 
 Example ex_reader_run_complete :
   exists c' os,
@@ -679,7 +761,7 @@ Proof. vm_compute. reflexivity. Qed.
 Example ex_step_poll_is_feed :
   step ex_dec ex_c0 (EPoll 3 true true false false [SAccept 5]
                        (chunks_script [[3; 0; 0]; [0; 10; 11; 12; 2]]%N ++ [REagain]))
-  = feed ex_dec (set_last_read ex_c0 3) [3; 0; 0; 0; 10; 11; 12; 2]%N.
+  = feed ex_dec 3 (set_last_read ex_c0 3) [3; 0; 0; 0; 10; 11; 12; 2]%N.
 Proof.
   apply (step_poll_is_feed ex_dec ex_c0 3 true [SAccept 5] [[3; 0; 0]; [0; 10; 11; 12; 2]]%N [REagain]).
   - reflexivity.
@@ -691,23 +773,24 @@ Qed.
 
 (* message 1, then a frame with length field -1, then garbage *)
 Example ex_bad_negative :
-  parse_all ex_dec (set_rbuf ex_c0 ([3; 0; 0; 0; 10; 11; 12] ++ [255; 255; 255; 255] ++ [9; 9])%N)
-  = (dead ex_c0, {| accepted := []; delivered := [1%N]; disc_calls := 1; conn_calls := 0; miss := false |}).
+  parse_all ex_dec 7 (set_rbuf ex_c0 ([3; 0; 0; 0; 10; 11; 12] ++ [255; 255; 255; 255] ++ [9; 9])%N)
+  = (cleared ex_c0, disc_delivering [1%N]).
 Proof.
-  apply (bad_frame_disconnects ex_dec ex_payload
+  apply (bad_frame_disconnects ex_dec ex_payload 7
            (set_rbuf ex_c0 ([3; 0; 0; 0; 10; 11; 12] ++ [255; 255; 255; 255] ++ [9; 9])%N)
            [1%N] [255; 255; 255; 255]%N [9; 9]%N);
     [ex_good|reflexivity| |reflexivity].
   left. split; [cbn; lia|vm_compute; reflexivity].
 Qed.
 
-(* message 1, then an undecodable frame, then message 2, which is never delivered *)
+(* message 1, then an undecodable frame, then message 2, which is never
+   delivered; here the callback reconnects: fresh CONNECTING connection *)
 Example ex_bad_undecodable :
-  parse_all ex_dec (set_rbuf ex_c0 (stream ex_payload [1%N] ++ frame [66%N] ++ stream ex_payload [2%N]))
-  = (dead ex_c0, {| accepted := []; delivered := [1%N]; disc_calls := 1; conn_calls := 0; miss := false |}).
+  parse_all ex_dec 7 (set_rbuf ex_c1 (stream ex_payload [1%N] ++ frame [66%N] ++ stream ex_payload [2%N]))
+  = (connect 7 ex_c1, disc_delivering [1%N]).
 Proof.
-  apply (bad_frame_disconnects ex_dec ex_payload
-           (set_rbuf ex_c0 (stream ex_payload [1%N] ++ frame [66%N] ++ stream ex_payload [2%N]))
+  apply (bad_frame_disconnects ex_dec ex_payload 7
+           (set_rbuf ex_c1 (stream ex_payload [1%N] ++ frame [66%N] ++ stream ex_payload [2%N]))
            [1%N] (frame [66%N]) (stream ex_payload [2%N]));
     [ex_good|reflexivity| |reflexivity].
   right. exists [66%N]. repeat split.
@@ -717,8 +800,7 @@ Example ex_bad_frame_step :
   step ex_dec (set_rbuf ex_c0 [3; 0]%N)
        (EPoll 4 true false false false []
           (chunks_script [[0; 0; 10; 11]; [12; 1; 0; 0; 0; 66; 2; 0]]%N ++ []))
-  = (dead now (set_last_read (set_rbuf ex_c0 [3; 0]%N) 4),
-     {| accepted := []; delivered := [1%N]; disc_calls := 1; conn_calls := 0; miss := false |}).
+  = (cleared (set_last_read ex_c0 4), disc_delivering [1%N]).
 Proof.
   apply (bad_frame_step ex_dec ex_payload (set_rbuf ex_c0 [3; 0]%N) 4 [1%N] (frame [66%N]) [2; 0]%N).
   - ex_good.
@@ -731,11 +813,11 @@ Proof.
 Qed.
 
 Example ex_run_disconnected :
-  Forall quiet (snd (run ex_dec (dead ex_c0)
+  Forall quiet (snd (run ex_dec (cleared ex_c1)
      [ESend 1 [10; 11; 12]%N [SAccept 3];
       EPoll 2 true true false false [SAccept 9] [RChunk [3; 0; 0; 0; 10; 11; 12]%N false];
-      EDisconnect])).
-Proof. apply run_disconnected. reflexivity. Qed.
+      EDisconnect 3])).
+Proof. apply run_disconnected; [reflexivity|repeat constructor]. Qed.
 
 (* writer: two sends and a write-poll, short writes, a zero return, EAGAIN *)
 Definition ex_wevents : list event :=
@@ -769,8 +851,11 @@ Definition ex_wevents_fail : list event :=
 Example ex_writer_any :
   forall c' os, run ex_dec ex_c0 ex_wevents_fail = (c', os) ->
     exists rest, acc_of os ++ rest = wbuf ex_c0 ++ sent_of ex_wevents_fail /\
-                 (st c' = Connected -> wbuf c' = rest).
-Proof. intros c' os H. exact (writer_any ex_dec ex_wevents_fail ex_c0 c' os H). Qed.
+                 (st c' <> Disconnected -> wbuf c' = rest).
+Proof.
+  intros c' os H.
+  exact (writer_any ex_dec ex_wevents_fail ex_c0 c' os eq_refl ltac:(repeat constructor) H).
+Qed.
 
 Example ex_writer_any_computed :
   acc_of (snd (run ex_dec ex_c0 ex_wevents_fail)) = [3; 0; 0; 0; 10]%N /\
@@ -779,7 +864,7 @@ Proof. vm_compute. split; reflexivity. Qed.
 
 Example ex_writer_failure_send :
   step ex_dec (set_wbuf ex_c0 [0; 0; 10; 11; 12]%N) (ESend 2 (ex_payload 2) (map SAccept [3; 0]%N ++ SErr :: [SAccept 9]))
-  = (dead ex_c0, disc_out_acc [0; 0; 10; 11]%N).
+  = (cleared ex_c0, disc_out_acc [0; 0; 10; 11]%N).
 Proof.
   apply (writer_failure_send ex_dec (set_wbuf ex_c0 [0; 0; 10; 11; 12]%N) 2 (ex_payload 2) [3; 0]%N SErr [SAccept 9]).
   - reflexivity.
@@ -788,12 +873,14 @@ Proof.
   - ex_arith.
 Qed.
 
+(* the same failure with the reconnecting callback: a fresh CONNECTING
+   connection, nothing of the old write buffer in it *)
 Example ex_writer_failure_poll :
-  step ex_dec (set_wbuf ex_c0 [0; 0; 10; 11; 12]%N)
+  step ex_dec (set_wbuf ex_c1 [0; 0; 10; 11; 12]%N)
        (EPoll 2 true true false false (map SAccept [2]%N ++ SNeg :: []) [RChunk [1]%N false])
-  = (dead ex_c0, disc_out_acc [0; 0]%N).
+  = (connect 2 ex_c1, disc_out_acc [0; 0]%N).
 Proof.
-  apply (writer_failure_poll ex_dec (set_wbuf ex_c0 [0; 0; 10; 11; 12]%N) 2 true false [2]%N SNeg []).
+  apply (writer_failure_poll ex_dec (set_wbuf ex_c1 [0; 0; 10; 11; 12]%N) 2 true false [2]%N SNeg []).
   - reflexivity.
   - ex_arith.
   - exact I.
@@ -803,13 +890,25 @@ Qed.
 
 Example ex_writer_timeout_send :
   step ex_dec (set_wbuf ex_c0 [0; 0; 10]%N) (ESend 11 (ex_payload 2) [SAccept 9])
-  = (dead ex_c0, disc_out_acc []).
+  = (cleared ex_c0, disc_out).
 Proof. apply (writer_timeout_send ex_dec (set_wbuf ex_c0 [0; 0; 10]%N)); [reflexivity|ex_arith]. Qed.
 
 Example ex_writer_timeout_poll :
   step ex_dec (set_wbuf ex_c0 [0; 0; 10]%N) (EPoll 11 true true false false [SAccept 9] [RChunk [1]%N false])
-  = (dead ex_c0, disc_out_acc []).
-Proof. apply (writer_timeout_poll ex_dec (set_wbuf ex_c0 [0; 0; 10]%N)); [reflexivity|ex_arith]. Qed.
+  = (cleared ex_c0, disc_out).
+Proof.
+  apply (writer_timeout_poll ex_dec (set_wbuf ex_c0 [0; 0; 10]%N)); [reflexivity|reflexivity|ex_arith].
+Qed.
+
+Example ex_timeout_poll_reconnect :
+  step ex_dec (set_wbuf (set_rbuf ex_c1 [3; 0]%N) [0; 0; 10]%N)
+       (EPoll 11 true false false true [] [RChunk [1]%N false])
+  = ({| st := Connected; rbuf := []; wbuf := []; last_read := 11; timeout := 10; reconnect := true |},
+     out_app disc_out conn_out).
+Proof.
+  apply (timeout_poll_reconnect ex_dec (set_wbuf (set_rbuf ex_c1 [3; 0]%N) [0; 0; 10]%N) 11 true false);
+    [reflexivity|reflexivity|ex_arith].
+Qed.
 
 (* roundtrip: the writer of ex_wevents_fail got 5 bytes out before the error;
    cut as 1 + 4 they make no complete frame; the writer of ex_wevents got
@@ -819,24 +918,87 @@ Example ex_roundtrip_partial :
     (k <= 3)%nat /\
     acc_of (snd (run ex_dec ex_c0 ex_wevents_fail)) = stream ex_payload (firstn k [1; 2; 1]%N) ++ tail /\
     next_frame_prefix ex_payload tail (skipn k [1; 2; 1]%N) /\
-    feed_all ex_dec ex_c0 [[3]; [0; 0; 0; 10]]%N = (set_rbuf ex_c0 tail, mk_out (firstn k [1; 2; 1]%N)).
+    feed_all ex_dec 0 ex_c0 [[3]; [0; 0; 0; 10]]%N = (set_rbuf ex_c0 tail, mk_out (firstn k [1; 2; 1]%N)).
 Proof.
   destruct (run ex_dec ex_c0 ex_wevents_fail) as [c' os] eqn:E.
-  apply (roundtrip ex_dec ex_dec ex_payload ex_wevents_fail [1; 2; 1]%N ex_c0 c' os
+  apply (roundtrip ex_dec ex_dec ex_payload 0 ex_wevents_fail [1; 2; 1]%N ex_c0 c' os
                    [[3]; [0; 0; 0; 10]]%N ex_c0); try reflexivity; try exact E.
+  - repeat constructor.
   - ex_good.
   - apply (f_equal snd) in E. cbn [snd] in E. rewrite <- E. vm_compute. reflexivity.
 Qed.
 
 Example ex_roundtrip_complete :
-  feed_all ex_dec ex_c0 ex_chunks = (ex_c0, mk_out [1; 2]%N).
+  feed_all ex_dec 0 ex_c0 ex_chunks = (ex_c0, mk_out [1; 2]%N).
 Proof.
   destruct (run ex_dec ex_c0 ex_wevents) as [c' os] eqn:E.
   assert (E' := E). vm_compute in E'. injection E' as <- <-.
   assert (Hg : Forall (good ex_dec ex_payload) [1; 2]%N) by ex_good.
-  destruct (roundtrip ex_dec ex_dec ex_payload ex_wevents [1; 2]%N ex_c0 _ _ ex_chunks ex_c0
-              eq_refl eq_refl Hg E eq_refl eq_refl) as [_ H].
-  apply H; reflexivity.
+  assert (Hn : Forall (no_connect) ex_wevents) by (repeat constructor).
+  destruct (roundtrip ex_dec ex_dec ex_payload 0 ex_wevents [1; 2]%N ex_c0 _ _ ex_chunks ex_c0
+              eq_refl eq_refl Hn eq_refl Hg E eq_refl eq_refl) as [_ H].
+  apply H; [discriminate|reflexivity].
+Qed.
+
+(* ---- reconnect ---- *)
+
+(* the connection holds 2 stray bytes; one read burst brings message 1 whole,
+   the first two header bytes of message 2, then EOF; the callback reconnects *)
+Definition ex_old : conn := set_wbuf ex_c1 [7; 7; 7]%N.
+Definition ex_burst : event :=
+  EPoll 3 true false false false []
+    (chunks_script [[3; 0; 0; 0; 10]; [11; 12; 2; 0]]%N ++ [RChunk [] false]).
+
+Example ex_read_burst_disconnect :
+  step ex_dec ex_old ex_burst = (connect 3 ex_c1, disc_out).
+Proof.
+  apply (read_burst_disconnect ex_dec ex_old 3 [[3; 0; 0; 0; 10]; [11; 12; 2; 0]]%N [RChunk [] false]).
+  - reflexivity.
+  - ex_arith.
+  - repeat constructor; discriminate.
+  - exact I.
+Qed.
+
+Example ex_disconnect_clears :
+  forall c' o, step ex_dec ex_old ex_burst = (c', o) -> rbuf c' = [] /\ wbuf c' = [].
+Proof.
+  intros c' o H. apply (step_disconnect_clears ex_dec ex_old ex_burst c' o H).
+  rewrite ex_read_burst_disconnect in H. injection H as _ <-. cbn. lia.
+Qed.
+
+(* ... and the new connection receives its own stream exactly: message 1 of the
+   dead connection is not delivered, its 2 header bytes do not mis-frame *)
+Example ex_reader_after_reconnect :
+  exists c' os,
+    run ex_dec (connect 3 ex_c1) (EPoll 4 false true false false [] [] :: map poll_event ex_polls) = (c', os) /\
+    st c' = Connected /\ rbuf c' = [] /\ sum_outs os = connected_delivering [1; 2]%N.
+Proof.
+  assert (Hg : Forall (good ex_dec ex_payload) [1; 2]%N) by ex_good.
+  destruct (reader_after_reconnect ex_dec ex_payload [1; 2]%N ex_polls ex_old ex_burst
+              (connect 3 ex_c1) disc_out Hg ex_read_burst_disconnect ltac:(cbn; lia) eq_refl) as [H _].
+  apply (H eq_refl 4 false true [] []); [ex_arith|reflexivity|].
+  cbn. repeat split; try discriminate; lia.
+Qed.
+
+Example ex_reconnect_scenario_computed :
+  run ex_dec ex_old (ex_burst :: EPoll 4 false true false false [] [] :: map poll_event ex_polls)
+  = (set_last_read (init_conn 0 10 true) 14,
+     [disc_out; conn_out; mk_out []; mk_out [1%N]; mk_out [2%N]]).
+Proof. vm_compute. reflexivity. Qed.
+
+Example ex_reader_after_connect :
+  exists c' os,
+    run ex_dec (cleared ex_c0)
+        (EConnect 2 :: EPoll 4 true false false false [] [RChunk [9]%N false] :: map poll_event ex_polls)
+      = (c', os) /\
+    st c' = Connected /\ rbuf c' = [] /\ sum_outs os = connected_delivering [1; 2]%N.
+Proof.
+  apply (reader_after_connect ex_dec ex_payload [1; 2]%N ex_polls (cleared ex_c0) 2 4 true false [] [RChunk [9]%N false]).
+  - ex_good.
+  - ex_arith.
+  - reflexivity.
+  - cbn. repeat split; try discriminate; lia.
+  - reflexivity.
 Qed.
 
 (* ------------------------------------------------------------------ *)
@@ -852,15 +1014,15 @@ Section C13Final.
     Forall (good dec payload) ms.
   Proof. intros H. apply Forall_forall. exact H. Qed.
 
-  Lemma C13_reader_thm ms cs c :
+  Lemma C13_reader_thm now ms cs c :
     (forall m, In m ms -> dec (payload m) = DOk m /\ zlen (payload m) < two31) ->
     rbuf c = [] ->
     concat cs = concat (map (fun m => frame (payload m)) ms) ->
     feed_all dec now c cs =
       (c, {| accepted := []; delivered := ms; disc_calls := 0; conn_calls := 0; miss := false |}).
-  Proof. intros H. exact (reader_complete dec payload ms cs c (goods_Forall ms H)). Qed.
+  Proof. intros H. exact (reader_complete dec payload now ms cs c (goods_Forall ms H)). Qed.
 
-  Lemma C13_reader_prefix_thm ms cs rest c :
+  Lemma C13_reader_prefix_thm now ms cs rest c :
     (forall m, In m ms -> dec (payload m) = DOk m /\ zlen (payload m) < two31) ->
     rbuf c = [] ->
     concat cs ++ rest = concat (map (fun m => frame (payload m)) ms) ->
@@ -874,9 +1036,9 @@ Section C13Final.
       feed_all dec now c cs =
         (set_rbuf c tail,
          {| accepted := []; delivered := firstn k ms; disc_calls := 0; conn_calls := 0; miss := false |}).
-  Proof. intros H. exact (reader_prefix dec payload ms cs rest c (goods_Forall ms H)). Qed.
+  Proof. intros H. exact (reader_prefix dec payload now ms cs rest c (goods_Forall ms H)). Qed.
 
-  Lemma C13_reader_prefix_unique_thm ms cs k tail c :
+  Lemma C13_reader_prefix_unique_thm now ms cs k tail c :
     (forall m, In m ms -> dec (payload m) = DOk m /\ zlen (payload m) < two31) ->
     rbuf c = [] -> (k <= length ms)%nat ->
     concat cs = concat (map (fun m => frame (payload m)) (firstn k ms)) ++ tail ->
@@ -887,7 +1049,7 @@ Section C13Final.
     feed_all dec now c cs =
       (set_rbuf c tail,
        {| accepted := []; delivered := firstn k ms; disc_calls := 0; conn_calls := 0; miss := false |}).
-  Proof. intros H. exact (reader_prefix_any dec payload ms cs k tail c (goods_Forall ms H)). Qed.
+  Proof. intros H. exact (reader_prefix_any dec payload now ms cs k tail c (goods_Forall ms H)). Qed.
 
   Lemma C13_reader_on_run_thm ms (ps : list (Z * bytes)) c :
     (forall m, In m ms -> dec (payload m) = DOk m /\ zlen (payload m) < two31) ->
@@ -902,16 +1064,16 @@ Section C13Final.
         {| accepted := []; delivered := ms; disc_calls := 0; conn_calls := 0; miss := false |}.
   Proof. intros H. exact (reader_run_complete dec payload ms ps c (goods_Forall ms H)). Qed.
 
-  Lemma C13_bad_frame_disconnects_thm c ms bad rest :
+  Lemma C13_bad_frame_disconnects_thm now c ms bad rest :
     (forall m, In m ms -> dec (payload m) = DOk m /\ zlen (payload m) < two31) ->
     st c = Connected ->
     ((4 <= length bad)%nat /\ unpack_i bad < 0) \/
     (exists d, bad = pack_i (zlen d) ++ d /\ zlen d < two31 /\ dec d = DFail) ->
     rbuf c = concat (map (fun m => frame (payload m)) ms) ++ bad ++ rest ->
     parse_all dec now c =
-      ({| st := Disconnected; rbuf := []; wbuf := []; last_read := last_read c; timeout := timeout c |},
+      (if reconnect c then connect now c else cleared c,
        {| accepted := []; delivered := ms; disc_calls := 1; conn_calls := 0; miss := false |}).
-  Proof. intros H. exact (bad_frame_disconnects dec payload c ms bad rest (goods_Forall ms H)). Qed.
+  Proof. intros H. exact (bad_frame_disconnects dec payload now c ms bad rest (goods_Forall ms H)). Qed.
 
   Lemma C13_bad_frame_disconnects_step_thm c now ms bad rest bs tl :
     (forall m, In m ms -> dec (payload m) = DOk m /\ zlen (payload m) < two31) ->
@@ -922,14 +1084,58 @@ Section C13Final.
     (exists d, bad = pack_i (zlen d) ++ d /\ zlen d < two31 /\ dec d = DFail) ->
     rbuf c ++ concat bs = concat (map (fun m => frame (payload m)) ms) ++ bad ++ rest ->
     step dec c (EPoll now true false false false [] (map (fun b => RChunk b false) bs ++ tl)) =
-      ({| st := Disconnected; rbuf := []; wbuf := []; last_read := now; timeout := timeout c |},
+      (if reconnect c then connect now c else cleared (set_last_read c now),
        {| accepted := []; delivered := ms; disc_calls := 1; conn_calls := 0; miss := false |}).
   Proof. intros H. exact (bad_frame_step dec payload c now ms bad rest bs tl (goods_Forall ms H)). Qed.
 
+  Lemma C13_reader_after_reconnect_thm ms (ps : list (Z * bytes)) c e c1 o1 :
+    (forall m, In m ms -> dec (payload m) = DOk m /\ zlen (payload m) < two31) ->
+    step dec c e = (c1, o1) -> (0 < disc_calls o1)%nat ->
+    concat (map snd ps) = concat (map (fun m => frame (payload m)) ms) ->
+    (st c1 = Connecting ->
+     forall t0 rd wr ss rs,
+       t0 - last_read c1 <= timeout c1 -> rd || wr = true ->
+       polls_ok t0 (timeout c1) ps ->
+       exists c' os,
+         run dec c1 (EPoll t0 rd wr false false ss rs ::
+                     map (fun p => EPoll (fst p) true false false false [] [RChunk (snd p) false]) ps)
+           = (c', os) /\
+         st c' = Connected /\ rbuf c' = [] /\
+         fold_right out_app no_out os =
+           {| accepted := []; delivered := ms; disc_calls := 0; conn_calls := 1; miss := false |}) /\
+    (st c1 = Connected ->
+     polls_ok (last_read c1) (timeout c1) ps ->
+     exists c' os,
+       run dec c1 (map (fun p => EPoll (fst p) true false false false [] [RChunk (snd p) false]) ps)
+         = (c', os) /\
+       st c' = Connected /\ rbuf c' = [] /\
+       fold_right out_app no_out os =
+         {| accepted := []; delivered := ms; disc_calls := 0; conn_calls := 0; miss := false |}).
+  Proof.
+    intros H. exact (reader_after_reconnect dec payload ms ps c e c1 o1 (goods_Forall ms H)).
+  Qed.
+
+  Lemma C13_reader_after_connect_thm ms (ps : list (Z * bytes)) c now t0 rd wr ss rs :
+    (forall m, In m ms -> dec (payload m) = DOk m /\ zlen (payload m) < two31) ->
+    t0 - now <= timeout c -> rd || wr = true ->
+    polls_ok t0 (timeout c) ps ->
+    concat (map snd ps) = concat (map (fun m => frame (payload m)) ms) ->
+    exists c' os,
+      run dec c (EConnect now :: EPoll t0 rd wr false false ss rs ::
+                 map (fun p => EPoll (fst p) true false false false [] [RChunk (snd p) false]) ps)
+        = (c', os) /\
+      st c' = Connected /\ rbuf c' = [] /\
+      fold_right out_app no_out os =
+        {| accepted := []; delivered := ms; disc_calls := 0; conn_calls := 1; miss := false |}.
+  Proof.
+    intros H. exact (reader_after_connect dec payload ms ps c now t0 rd wr ss rs (goods_Forall ms H)).
+  Qed.
+
   Variable decw : bytes -> dres.
 
-  Lemma C13_roundtrip_thm es ms cw cw' os cs cr :
-    wbuf cw = [] ->
+  Lemma C13_roundtrip_thm now es ms cw cw' os cs cr :
+    wbuf cw = [] -> reconnect cw = false ->
+    Forall (fun e => match e with EConnect _ => False | _ => True end) es ->
     flat_map (fun e => match e with ESend _ p _ => [p] | _ => [] end) es = map payload ms ->
     (forall m, In m ms -> dec (payload m) = DOk m /\ zlen (payload m) < two31) ->
     run decw cw es = (cw', os) ->
@@ -944,12 +1150,12 @@ Section C13Final.
        feed_all dec now cr cs =
          (set_rbuf cr tail,
           {| accepted := []; delivered := firstn k ms; disc_calls := 0; conn_calls := 0; miss := false |})) /\
-    (st cw' = Connected -> wbuf cw' = [] ->
+    (st cw' <> Disconnected -> wbuf cw' = [] ->
      feed_all dec now cr cs =
        (cr, {| accepted := []; delivered := ms; disc_calls := 0; conn_calls := 0; miss := false |})).
   Proof.
-    intros Hw Hp H.
-    exact (roundtrip dec decw payload es ms cw cw' os cs cr Hw Hp (goods_Forall ms H)).
+    intros Hw Hrc Hnc Hp H.
+    exact (roundtrip dec decw payload now es ms cw cw' os cs cr Hw Hrc Hnc Hp (goods_Forall ms H)).
   Qed.
 
 End C13Final.
